@@ -277,6 +277,11 @@ pub fn run(r: &mut Report) {
         (6, 0, 1, rng.next()),
         (8, 4, 1, rng.next()),
         (6, 2, 3, rng.next()),
+        // the preemption on the LAST multi-choice decision (B reads after k-1 of k increments)
+        (6, 5, 2, rng.next()),
+        (9, 8, 2, rng.next()),
+        // ... and on the first one that may be a change point
+        (6, 1, 2, rng.next()),
     ];
     let accs = oracle::parallel(n_trace + hr.len(), oracle::workers(), |i, acc| {
         if i < n_trace {
